@@ -626,6 +626,14 @@ Class == LET r == LastRec IN
                                         \* a head tombstone ending exactly at / just below the new head start
                                         TombRel(minValid')>>
          ELSE IF r.a = "Delete" THEN <<r.a, r.kf, stored' # stored, hdel' # hdel, ooh' # ooh \/ oom' # oom, blk' # blk>>
+         ELSE IF r.a = "CleanTombstones" THEN
+              <<r.a, r.kf, kfset, blkMax = NegInf,
+                \* blocks from out-of-order compaction exist / an in-order head sample lies at or below such a block's range
+                \E s \in Series : oghost[s] # {},
+                \E s \in Series : \E x \in Range(ino[s]) : \E s2 \in Series : \E y \in oghost[s2] : (x.t \div R) <= (y.t \div R),
+                \* some out-of-order block sample has been deleted, some survives
+                \E s \in Series : \E y \in oghost[s] : y \notin blk[s],
+                \E s \in Series : \E y \in oghost[s] : y \in blk[s]>>
          ELSE IF r.a = "CompactStale" THEN <<r.a, r.n, blkMax = NegInf, hMin < 0, \E s \in StaleSet : hdel[s] # {}>>
          ELSE IF r.a = "Import" THEN <<r.a, stored' = [stored EXCEPT !["s1"] = @ \cup {[t |-> r.lo, v |-> 2, ty |-> "f"], [t |-> r.hi, v |-> 2, ty |-> "f"]}],
                                       r.hi + 1 > blkMax, blkMax = NegInf, ino' # ino>>
